@@ -71,6 +71,7 @@ import PsdVerif.Lemmas.OpenMain
 import PsdVerif.Lemmas.OpenSamples
 import PsdVerif.Lemmas.CostClassTable
 import PsdVerif.Lemmas.CostTablesTied
+import PsdVerif.Generated.ReadSeeks
 import PsdVerif.Lemmas.UnsafeLoops
 import PsdVerif.Lemmas.EngineRegexTied
 
@@ -614,6 +615,26 @@ theorem alloc_sites_tied :
     CostTables.siteVerdicts.all (fun e => !(e.2.1 == "open" && e.2.2 == "declared-size") || e.1.2.2.1 == "read") = true :=
   ⟨CostTables.alloc_sites_tied, CostTables.sites_all_classified, CostTables.declared_size_at_open,
    CostTables.declared_size_at_open_is_stream_read⟩
+
+/-- cursor moves other than reading. The progress arguments (`counted_loop_ignores_count`, `body_progress_all_classes`:
+an item of a count-driven loop consumes at least one byte or fails, so end of data stops the loop whatever count is
+declared) assume that nothing inside a loop moves the cursor backwards. From the AST on every run: the reading
+functions `seek` at exactly eight places, each reviewed - an undo of the function's own last read (`read_fmt`,
+`is_readable`, `TaggedBlock.read`, the probe of `SliceV6.read`), the restore of a position saved in the same call before
+anything was consumed (`SliceV6.read`, `GlobalLayerMaskInfo.read`), the skip to the declared end of a section behind
+which the caller continues (`LayerAndMaskInformation.read`, `LayerInfo.read`) - and NONE lies inside a loop. (The search
+pairs count = max with every length / size field of the first item for every count-driven loop of `ReadLoops`.) -/
+theorem read_seeks_tied :
+    Generated.ReadSeeks.seeks =
+      [("psd/image_resources.py", "SliceV6.read", "seek(-4, 1)", "straight"),
+       ("psd/image_resources.py", "SliceV6.read", "seek(current_position)", "straight"),
+       ("psd/layer_and_mask.py", "GlobalLayerMaskInfo.read", "seek(pos)", "straight"),
+       ("psd/layer_and_mask.py", "LayerAndMaskInformation.read", "seek(end_pos, 0)", "straight"),
+       ("psd/layer_and_mask.py", "LayerInfo.read", "seek(end_pos, 0)", "straight"),
+       ("psd/tagged_blocks.py", "TaggedBlock.read", "seek(-4, 1)", "straight"),
+       ("utils.py", "is_readable", "seek(-read_size, 1)", "straight"),
+       ("utils.py", "read_fmt", "seek(-len(data), 1)", "straight")] ∧
+    Generated.ReadSeeks.seeks.all (fun e => e.2.2.2 != "loop") = true := by decide +kernel
 
 /-- the regular expressions of the engine-data tokenizer are those of the source and pass the sufficient condition for
 O(1) backtracking per byte (star height ≤ 1, disjoint FIRST sets, the one-versus-two tiling exception); the seeded
